@@ -19,7 +19,7 @@ META = {
         'describe -> one-tuple of a lexicon rowid). R3: element methods never navigate through the Wordnet-level '
         'id lookups. R4: default-mode scope formula. R5: Word/Sense/Synset objects are built only from rows of '
         'scoped queries or as placeholders. R7: every Word/Sense/Synset the library builds is handed the Wordnet of the object it was '
-        'reached from (an omitted `_wordnet` falls back to a default-mode Wordnet()). R8 rows the importer writes are owned by the lexicon being added (C05-R7). R9 every comparison of two columns in the embedded SQL (`a.x = b.y`, `a.x IN (SELECT b.y ...)`) compares keys of ONE table (own rowid or the target of its foreign key, from the schema): a lexicon filter through a sub-select that returns rowids of another table scopes nothing. Does not decide which rows SQLite returns for a filter.'),
+        'reached from (an omitted `_wordnet` falls back to a default-mode Wordnet()). R8 rows the importer writes are owned by the lexicon being added (C05-R7). R9 every comparison of two columns in the embedded SQL (`a.x = b.y`, `a.x IN (SELECT b.y ...)`) compares keys of ONE table (own rowid or the target of its foreign key, from the schema): a lexicon filter through a sub-select that returns rowids of another table scopes nothing. Does not decide which rows SQLite returns for a filter. R10 the default expand set derives from the selected lexicons only (C12-R4). R11 foreign keys stay enforced on the pooled connection (C05-R2).'),
     'decides': ['SQL scoping of every table occurrence', 'scope provenance at every call site',
                 'navigation discipline of element methods', 'default-mode scope formula', 'constructor provenance',
                 'scope recomputed per call', 'Wordnet handed on to every constructed element'],
